@@ -131,6 +131,9 @@ def check(prog, run):
         return
     q = next(iter(qs))
     run.extra["queue_field"] = q
+    run.rule("R10", "accepted => queued: every success exit of write_video is reachable only through the push onto the fragment's sample queue (an accepted sample cannot be dropped before it is ever queued)")
+    from . import c06
+    c06.accepted_is_queued(cx, run, "R10", (q, q), entries=[WRITE], floor=1)
     # ---- R1
     all_sites = []
     for p, b in cx.live.items():
